@@ -1,7 +1,7 @@
 (* C17 — property theorems only.  Each is closed by [exact] of a lemma from
    the proof files; the driver pins the statements with [Check] and prints the
    assumptions on every run.  (Generated together with props/C17.json.) *)
-From Yv Require Import Common.Base C17.Model C17.Spec C17.PLex C17.PMeasure C17.PSim C17.Proofs.
+From Yv Require Import Common.Base C17.Model C17.Spec C17.PLex C17.PMeasure C17.PSim C17.Proofs C17.PChain C17.Examples.
 
 (* alias substitution in the model terminates for every alias table (self- and mutually recursive included) and every command text: the fuel computed from the input never runs out *)
 Theorem alias_terminates : forall (t : table) (line : str), model_run t line <> ROutOfFuel.
@@ -59,6 +59,26 @@ Proof. exact flag_survives_blank. Qed.
 Theorem flag_makes_eligible : forall t s nm a, s_flag s = true -> lookup t nm = Some a -> ~ In nm (names (s_stack s)) -> eligible t s (Some nm) false = Some a.
 Proof. exact flag_makes_eligible. Qed.
 
+(* for every n: a command line naming n aliases one after the other, each with a value `word<blank>` (plain words that are not aliases), is substituted completely: the blank-ending rule chains through any number of aliases *)
+Theorem blank_continuation_chain : forall (t : table) (ws : list (str * str)), Forall (link_ok t) ws -> exists b, spec_run t (chain_line ws) = RFin b /\ text_of b = chain_out ws.
+Proof. exact chain_substituted. Qed.
+
+(* the same for the model of the lexer buffer *)
+Theorem blank_continuation_chain_model : forall (t : table) (ws : list (str * str)), Forall (link_ok t) ws -> exists mb, model_run t (chain_line ws) = RFin mb /\ map b_ch mb = chain_out ws.
+Proof. exact chain_substituted_model. Qed.
+
+(* operators, IO numbers (redirections) and the end of input are never alias candidates in any parser position, whether they come from the line or from a replacement *)
+Theorem only_words_are_candidates : forall ps k a g c n, decide ps k a g = ATry c n -> k = TWord \/ exists kw, k = TKey kw.
+Proof. exact only_words_are_candidates. Qed.
+
+(* a reserved word at the beginning of a command is recognised as such and never replaced *)
+Theorem reserved_word_first_not_candidate : forall kw a g c n, decide PCmd (TKey kw) a g <> ATry c n.
+Proof. exact reserved_word_first_not_candidate. Qed.
+
+(* the first word of a command, also behind assignments and redirections, is a candidate as command name; later words only as arguments *)
+Theorem command_word_is_candidate : forall a g, (exists n, decide PCmd TWord a g = ATry true n) /\ (forall fn arr, exists n, decide (PSimple true fn arr) TWord a g = ATry true n) /\ (forall fn arr, exists n, decide (PSimple false fn arr) TWord a g = ATry false n).
+Proof. exact command_word_is_candidate. Qed.
+
 (* oracle soundness: the run-time oracle (clauses 2, 3, 4) accepts the model's own output *)
 Theorem oracle_accepts_model : forall t line mb sb, model_run t line = RFin mb -> spec_run t line = RFin sb -> chains_ok t (observe mb) = true /\ str_eqb (text_of (observe mb)) (text_of sb) = true /\ obs_eqb (observe mb) sb = true.
 Proof. exact oracle_accepts_model. Qed.
@@ -89,6 +109,11 @@ Print Assumptions in_progress_not_eligible.
 Print Assumptions flag_raised_at_end_of_value.
 Print Assumptions flag_survives_blank.
 Print Assumptions flag_makes_eligible.
+Print Assumptions blank_continuation_chain.
+Print Assumptions blank_continuation_chain_model.
+Print Assumptions only_words_are_candidates.
+Print Assumptions reserved_word_first_not_candidate.
+Print Assumptions command_word_is_candidate.
 Print Assumptions oracle_accepts_model.
 Print Assumptions word_followed_by_delimiter.
 Print Assumptions word_starts_with_nondelimiter.
